@@ -14,6 +14,7 @@
 EXTENDS OciUnify
 
 CONSTANTS MTs,        \* media types manifests are pushed under
+          WriteFaults, \* TRUE: writes through the unifier are also made with either member failing by itself
           Depth       \* bound on the number of steps of the replication half
 
 VARIABLE depth
@@ -44,6 +45,11 @@ NoFaults == {NoFault}
 PolsFor(o) == IF o.op \in DigestReads THEN Policies ELSE {"seq"}
 FaultsFor(o) == IF o.op \in Lists THEN [{0, 1} -> ListFaults] ELSE {[i \in {0, 1} |-> NoFault]}
 
+\* a member failing by itself: the replicated writes, either member
+FaultedWrites == {"PushBlob", "PushManifest", "MountBlob", "DeleteBlob", "DeleteManifest", "DeleteTag"}
+WFsFor(o) == IF WriteFaults /\ o.op \in FaultedWrites
+             THEN {NoWF, [i \in {0, 1} |-> i = 0], [i \in {0, 1} |-> i = 1]} ELSE {NoWF}
+
 MCInit == Init /\ depth = 0
 
 DirectOps == ContentWrites(MTs) \cup (IF Cardinality(Repos) > 1 THEN MountOps ELSE {})
@@ -51,7 +57,7 @@ UnifierOpsView == ReadOpsSet \cup ContentWrites(MTs) \cup BadPushes \cup (IF Car
 NextView ==
   /\ UNCHANGED depth
   /\ \/ \E i \in {0, 1} : \E o \in DirectOps : Direct(i, o)
-     \/ \E o \in UnifierOpsView : \E p \in PolsFor(o) : \E f \in FaultsFor(o) : ViaUnifier(o, p, f)
+     \/ \E o \in UnifierOpsView : \E p \in PolsFor(o) : \E f \in FaultsFor(o) : \E w \in WFsFor(o) : ViaUnifierWF(o, p, f, w)
 SpecView == MCInit /\ [][NextView]_mcvars
 
 UnifierOpsRepl == ReadOpsSet \cup ContentWrites(MTs) \cup BadPushes \cup UploadOpsSet
